@@ -45,6 +45,7 @@ def run(ctx, rep):
     if helper:
         r7(prog, ev, rep, helper)
     r8(prog, ev, rep)
+    shared.literal_exact(prog, ev, rep, "C04-R9")
 
 
 # ------------------------------------------------------------------------------------------- roles
@@ -601,6 +602,19 @@ def r7(prog, ev, rep, helper):
 
 
 # ------------------------------------------------------------------------------------------- R6
+def shared_numeric_eq(prog, ev, rep, rid):
+    """C04-R3/R4 (every operand shape reaches the value-equality helper; numbers compare by value) under another id"""
+    from vflib.report import Report, Shared
+    tmp = Report("tmp")
+    roles = find_roles(prog, ev, tmp)
+    if roles is None:
+        rep.unrecognised(rid, "comparison-helpers", "-", "eq / lt helpers of Comparison::process not identified"); return
+    sh = Shared(rep, {"C04-R3": rid, "C04-R4": rid}, lender="C04")
+    helper = r3(prog, ev, sh, roles[1])
+    if helper:
+        r4(prog, ev, sh, helper)
+
+
 DISCHARGED = {}
 
 
